@@ -11,7 +11,7 @@ PROPERTY_ID = "C09"
 LEVEL = "exploration"
 RULE = (
     "E1 (controlled backend) with an instrumented input iterator (items handed out, thread inside, optional pause): "
-    "configurations as in C01 (all pre_dispatch forms, fixed and drawn 'auto' batch sizes, n_jobs 2..4), input lengths up "
+    "configurations as in C01 (all pre_dispatch forms, fixed and drawn 'auto' batch sizes, n_jobs 2..6), input lengths up "
     "to 3x the bound, schedules with out-of-order and synchronous completions and gates that hold a thread inside the "
     "iterator / compute_batch_size / submit / retrieve hooks while other batches complete or fail; optionally failing tasks "
     "and (generator modes) a close at a drawn instant.  Oracle, with P = pre_dispatch in tasks (independently evaluated), b "
